@@ -8,10 +8,12 @@ import (
 	"fmt"
 	"go/ast"
 	"go/parser"
+	"go/printer"
 	"go/token"
 	"os"
 	"path/filepath"
 	"sort"
+	"strconv"
 	"strings"
 
 	_ "github.com/smart-core-os/sc-api/go/traits"
@@ -191,6 +193,14 @@ func exprString(fset *token.FileSet, e ast.Expr) string {
 	return fmt.Sprintf("%T", e)
 }
 
+func srcText(fset *token.FileSet, n ast.Node) string {
+	var b strings.Builder
+	if err := printer.Fprint(&b, fset, n); err != nil {
+		return fmt.Sprintf("%T", n)
+	}
+	return strings.Join(strings.Fields(b.String()), " ")
+}
+
 func paramSig(fset *token.FileSet, fd *ast.FuncDecl) string {
 	var ps []string
 	for _, f := range fd.Type.Params.List {
@@ -289,20 +299,28 @@ func eqOptions(fset *token.FileSet, files []*ast.File) (map[string]string, error
 						case "WithMessageEquivalence", "WithEquivalence":
 							kind := ""
 							ast.Inspect(ac, func(m ast.Node) bool {
-								if s, ok := m.(*ast.SelectorExpr); ok {
-									switch s.Sel.Name {
-									case "FloatValueApprox":
-										kind = "approx"
-									case "Equal":
-										if kind == "" {
-											kind = "exact"
+								if c2, ok := m.(*ast.CallExpr); ok {
+									if s, ok := c2.Fun.(*ast.SelectorExpr); ok && s.Sel.Name == "FloatValueApprox" {
+										var lits []string
+										for _, la := range c2.Args {
+											lits = append(lits, srcText(fset, la))
 										}
+										kind = "approx(" + strings.Join(lits, ",") + ")"
 									}
+								}
+								if s, ok := m.(*ast.SelectorExpr); ok && s.Sel.Name == "Equal" && kind == "" {
+									kind = "exact"
 								}
 								return true
 							})
 							if kind == "" {
-								err = fmt.Errorf("DefaultModelOptions: equivalence of %s is not one the check knows (cmp.Equal with or without FloatValueApprox)", id.Name)
+								// a comparer the source reader does not understand: the real one is taken out of
+								// the constructed server and evaluated (oracle table), see comparer.go
+								var as []string
+								for _, la := range ac.Args {
+									as = append(as, srcText(fset, la))
+								}
+								kind = "custom:" + strings.Join(as, ",")
 							}
 							out[res] = kind
 						}
@@ -452,7 +470,9 @@ func scanServers(repo string) ([]Server, []string, error) {
 type Target struct {
 	Server Server
 	Triple Triple
-	Eq     string // "none" | "exact" | "approx"
+	Eq     string // "none" | "exact" (the model's own Pull compares with cmp.Equal) | "oracle" (the resource.Value carries a comparer)
+	EqSrc  string // what the source text says: "none" | "exact" | "approx(f,m)" | "custom:<expr>"
+	Tols   []float64 // float tolerances the translator found in the source (margins and fractions of FloatValueApprox)
 }
 
 func (t Target) Key() string { return t.Server.Key() + "/" + t.Triple.ID() }
@@ -481,21 +501,37 @@ func discover() ([]Target, []string, error) {
 				if s.Wrap[svc] == "" || s.Router[svc] == "" {
 					return nil, nil, fmt.Errorf("%s: no Wrap/New...Router for service %s", s.Key(), svc)
 				}
-				eq := "none"
+				src := "none"
 				for _, cand := range []string{strings.ToLower(t.R), strings.ToLower(string(t.Resource.Name()))} {
 					if k, ok := s.Eq[cand]; ok && s.Type == "ModelServer" {
-						eq = k
+						src = k
 					}
 				}
-				if s.Type == "ModelServer" && s.PullEq[string(t.Pull.Name())] && eq == "none" {
+				eq := "none"
+				if s.Type == "ModelServer" && s.PullEq[string(t.Pull.Name())] {
 					eq = "exact"
 				}
-				out = append(out, Target{Server: s, Triple: t, Eq: eq})
+				tg := Target{Server: s, Triple: t, Eq: eq, EqSrc: src, Tols: tolerancesOf(src)}
+				out = append(out, tg)
 			}
 		}
 	}
 	sort.Slice(out, func(i, j int) bool { return out[i].Key() < out[j].Key() })
 	return out, notes, nil
+}
+
+// tolerancesOf extracts the numeric literals of an "approx(f,m)" source reading.
+func tolerancesOf(src string) []float64 {
+	var out []float64
+	if !strings.HasPrefix(src, "approx(") {
+		return nil
+	}
+	for _, a := range strings.Split(strings.TrimSuffix(strings.TrimPrefix(src, "approx("), ")"), ",") {
+		if f, err := strconv.ParseFloat(strings.TrimSpace(a), 64); err == nil && f > 0 {
+			out = append(out, f)
+		}
+	}
+	return out
 }
 
 // goType is the Go type expression of a message of the sc-api module.
